@@ -5,9 +5,10 @@ CONSTANTS
   MaxItems = 2
   AssignMax = 4
   ArgVals = 1
-  TypeIds = {"X_u8_u8", "X_u32_u8", "X_bool_u16", "X_vu8_u8", "X_vi32_u16", "X_s8_u16", "X_vu8le_le", "X_x_u8", "X_us2_u16", "X_ue1_u8"}
-  LMults = {0, 1, 2, 4, 6}
-  BigInit = FALSE
+  TypeIds = {"X_vu8_u8"}
+  LMults = {0, 1, 3}
+  BigInit = TRUE
   FollowUps = FALSE
 INVARIANTS InvRoundTrip InvSize InvLenCap InvFlexShape
+CONSTRAINT BigBound
 CHECK_DEADLOCK FALSE
